@@ -276,13 +276,14 @@ public:
         // We need that distance(first, last) >= 4
         address_type addr(first_);
         for (int i = 0; i < 3; ++i) {
-            // If there's overflow before the last iteration, we're done
-            if (Internals::increment(addr) && i != 2) {
+            // Since first <= last, reaching last here means the range
+            // is too small (and addr can't overflow before reaching it)
+            if (addr == last_) {
                 return false;
             }
+            Internals::increment(addr);
         }
-        // If addr <= last, it's OK.
-        return addr < last_ || addr == last_;
+        return true;
     }
 private:
     address_type first_, last_;
